@@ -88,6 +88,8 @@ PROPS["C04"] = dict(
                 "(row, col) cell its key stands for (KEYED). So no event is lost, duplicated or credited to another cell by the accumulator - in real "
                 "arithmetic (float32 summation order is the property's own caveat). The three keyed-sum lemmas used are proved by induction on every "
                 "run (split, shift) or stated with a Lean proof (permutation). ASSUMED: the run stack does not fill up (see assumptions). Bounded: "
+                "Document chunking (_generate_chunk_boundaries, both variants): the chunks given to the worker threads are consecutive, start at document 0 "
+                "and end at the last document, for every n_threads >= 1 and every corpus (so n_threads cannot drop or duplicate a document). "
                 "conservation of events over accumulator histories with tiny N and LIMIT through the real functions, and API-level independence of "
                 "n_threads / coo_initial_memory / volume for the four vectorizers."),
     level_note=("Trusted: pyvc, z3, numpy contracts (argsort is a sorting permutation, slice assignment, round). Assumption: depth[0] stays below "
@@ -355,6 +357,10 @@ _EMK = [f + "::numba_em_cooccurrence_iteration" for f in ("vectorizers/token_coo
                                                           "vectorizers/timed_token_cooccurrence_vectorizer.py")]
 for _p in ("C10", "C11"):
     PROPS[_p]["functions"] += _EMK
+
+# C04: the document chunks handed to the worker threads partition the corpus (for every n_threads and every corpus)
+PROPS["C04"]["functions"] += ["vectorizers/base_cooccurrence_vectorizer.py::BaseCooccurrenceVectorizer._generate_chunk_boundaries",
+                              "vectorizers/multi_token_cooccurence_vectorizer.py::MultiSetCooccurrenceVectorizer._generate_chunk_boundaries#partition"]
 
 # the lemma library (induction proofs of the prefix-sum / keyed-sum lemmas) is part of every check whose contracts invoke a lemma
 import contracts as _C
